@@ -337,7 +337,11 @@ class Run:
         if not good:
             self.fail(f"{what}:value", f"{what} changed the physical value: {float(a)!r} -> {float(b)!r} (root units)", rp)
         if is_ufloat(m0) and good:
-            s0, s1 = F(m0.std_dev) * abs(F(f0)), F(m1.std_dev) * abs(F(f1)) if is_ufloat(m1) else None
+            try:
+                s0, s1 = F(m0.std_dev) * abs(F(f0)), F(m1.std_dev) * abs(F(f1)) if is_ufloat(m1) else None
+            except (OverflowError, ValueError):
+                self.ck.count("float-range-exhausted")
+                return good
             if s1 is None or abs(s0 - s1) > REL * max(abs(s0), abs(s1)):
                 self.fail(f"{what}:uncertainty", f"{what} changed the standard deviation", rp)
         return good
@@ -471,12 +475,9 @@ class Run:
             else:
                 e = fun[1]
                 import pint
-                if what == "reduced_units" and R.nit is float and isinstance(e, pint.errors.DimensionalityError):
-                    # is the exact reduction non-dyadic?
-                    ex = self.exact_reduction(items)
-                    nd = ex is not None and any((v.denominator & (v.denominator - 1)) != 0 for v in ex.values())
-                    self.fail("reduced-dimerr:float-nondyadic" if nd else "reduced-dimerr",
-                              f"float registry: to_reduced_units raises DimensionalityError ({str(e)[:100]}); exact reduction {ex}", rp)
+                if what == "reduced_units" and R.nit is not F and isinstance(e, pint.errors.DimensionalityError):
+                    self.fail(self.reduced_dimerr_key(R, items),
+                              f"{R.nit.__name__} registry: to_reduced_units raises DimensionalityError ({str(e)[:100]}); exact reduction {self.exact_reduction(items)}", rp)
                 elif range_exhausted(e):
                     ck.count("float-range-exhausted")
                 else:
@@ -518,6 +519,36 @@ class Run:
 
     _UF = None
 
+    def reduced_dimerr_key(self, R, items):
+        """cause tag: some dimensionality ratio between two units of the quantity (or an exponent of the
+        exact reduction) cannot be represented in the registry's number type"""
+        UF = self._UF
+        vals = []
+        names = [k for k, _ in items]
+        for a in names:
+            for b in names:
+                if a != b:
+                    try:
+                        x = UF.u._get_dimensionality_ratio(a, b)
+                    except Exception:  # noqa: BLE001
+                        x = None
+                    if x is not None:
+                        vals.append(F(x))
+        ex = self.exact_reduction(items)
+        vals += list((ex or {}).values())
+
+        def representable(v):
+            d = v.denominator
+            if R.nit is Decimal:
+                while d % 5 == 0:
+                    d //= 5
+            while d % 2 == 0:
+                d //= 2
+            return d == 1
+        if all(representable(v) for v in vals):
+            return "reduced-dimerr"
+        return "reduced-dimerr:float-nondyadic" if R.nit is float else "reduced-dimerr:decimal-nonterminating"
+
     def exact_reduction(self, items):
         import pint.facets.plain.qto as qto
         R = self._UF
@@ -549,7 +580,11 @@ def run(ck):
                        "to_compact in floats: the model is exact; a difference is accepted as explained only when the exact "
                        "magnitude is within 2^-40 (relative) of a power-of-1000 boundary"]
     ck.trusted += ["math.log10 / float rounding (not modelled: F12)", "python-mip / CBC (parameter of the model)"]
+    import time
+    t0 = time.time()
     built = ck.coq_build(["Properties/C15.vo", "Model/RewriteRun.vo", "Gen/DefaultReg.vo"])
+    ck.extra["t_build_s"] = round(time.time() - t0, 1)
+    t0 = time.time()
 
     run_ = Run(ck)
     UF = Reg(F)
@@ -615,6 +650,23 @@ def run(ck):
         expl = run_.compact_oracle(R, m, items, fun, rp)
         run_.add(f"KCompact {coq_rq(m, items)} {coq_hres(fun, exact=R is UF)}", rp, ("f12", repr(m)), explain=expl)
 
+    # the F22 witness and a directed stream: volumes against lengths (ratio 1/3), areas against volumes (2/3)
+    f22 = [[("hand", F(2)), ("quart", F(2)), ("survey_mile", F(2)), ("gill", F(-3))]]
+    vols = [n for n in ratl if UF.unit_dims(n) == {"[length]": 3}]
+    lens = [n for n in ratl if UF.unit_dims(n) == {"[length]": 1}]
+    areas = [n for n in ratl if UF.unit_dims(n) == {"[length]": 2}]
+    for _ in range(120 if thorough else 25):
+        it = [(rng.choice(vols), F(rng.choice(EXPS))), (rng.choice(lens), F(rng.choice(EXPS)))]
+        if rng.random() < 0.5:
+            it.insert(rng.randint(0, 2), (rng.choice(areas), F(rng.choice(EXPS))))
+        if rng.random() < 0.5:
+            it.append((rng.choice(["second", "kilogram", "kelvin"]), F(rng.choice(EXPS))))
+        if len({k for k, _ in it}) == len(it):
+            f22.append(it)
+    for it in f22:
+        run_.exercise(Uf, rnd_mag_float(rng) if it is not f22[0] else 1.0, it, "thirds", with_model=False)
+        run_.exercise(UF, rnd_mag_exact(rng), it, "thirds", with_model=True)
+
     # ---------------------------------------------------------------- 3. fixed points, special values, ufloat, Decimal
     fixed_units = [[], [("percent", F(1))], [("radian", F(1))], [("count", F(1))], [("meter", F(1)), ("inch", F(-1))],
                    [("kilometer", F(1)), ("meter", F(-1))], [("degree", F(2))], [("bit", F(1))], [("meter", F(1))],
@@ -648,6 +700,10 @@ def run(ck):
                 run_.preserved(UD, what, m, items, fun, rp, exact=False)
                 if what == "compact":
                     run_.compact_oracle(UD, m, items, fun, rp)
+            elif what == "reduced_units" and isinstance(fun[1], pint.errors.DimensionalityError):
+                run_.fail(run_.reduced_dimerr_key(UD, items), f"Decimal registry: to_reduced_units raises DimensionalityError ({str(fun[1])[:100]})", rp)
+            elif range_exhausted(fun[1]):
+                ck.count("float-range-exhausted")
             else:
                 run_.fail(f"{what}:raises:{type(fun[1]).__name__}", f"Decimal registry: to_{what} raises {type(fun[1]).__name__}: {str(fun[1])[:100]}", rp)
             if what != "compact":
@@ -875,7 +931,7 @@ def run(ck):
             run_.twin(R, "base_units", fun, ito, rp)
             if fun[0] == "ok":
                 run_.preserved(R, f"base_units[{s}]", m, items, fun, rp, exact=True)
-                fx = exact_num(R.root(mkc(R.u, dict(items)))[0]) and exact_num(R.root(mkc(R.u, dict(fun[2])))[0])
+                fx = run_.factor_exact(R, items, fun[2])
                 if fx and exact_num(fun[1]) and all(v.denominator == 1 for _, v in fun[2]):
                     run_.add(f"KBase {coq_rq(m, items)} {coq_uc(dict(fun[2]))} {coq_hres(fun)}", rp, ("sys", s, repr(m), tuple(items)))
             elif range_exhausted(fun[1]):
@@ -886,7 +942,10 @@ def run(ck):
 
     # ---------------------------------------------------------------- differ inside Coq
     cases = run_.cases
+    ck.extra["t_pint_s"] = round(time.time() - t0, 1)
+    t0 = time.time()
     bad = ck.coq_mismatches("c15", HEADER, [c for c, _, _ in cases], "ok") if built else None
+    ck.extra["t_model_s"] = round(time.time() - t0, 1)
     ck.extra["model_vs_impl_cases"] = len(cases)
     ck.extra["model_vs_impl_disagreements"] = None if bad is None else len(bad)
     unexplained = []
